@@ -281,7 +281,7 @@ fn c13_read_frame_truncated_second() {
     std::mem::forget(buf);
 }
 
-// @verif prop=C12 id=O12.3a tier=quick unwind=12 timeout=900 bound="one frame with 1-byte cdata (27 bytes) + 1 trailing byte, served in EVERY partition into short reads (no Interrupted)" fns="read_frame_into,std::io::default_read_exact"
+// @verif prop=C12 id=O12.3a tier=thorough unwind=12 timeout=2400 bound="one frame with 1-byte cdata (27 bytes) + 1 trailing byte, served with up to 2 solver-placed short reads of any size (no Interrupted)" fns="read_frame_into,std::io::default_read_exact"
 #[kani::proof]
 #[kani::unwind(12)]
 fn c12_read_frame_into_any_chunking() {
@@ -292,7 +292,7 @@ fn c12_read_frame_into_any_chunking() {
         let mut sink: &mut [u8] = &mut file[..];
         write_frame(&mut sink, &c1, crc1, i1 as usize).unwrap()
     };
-    let mut src = Chunky::new(&file[..a + 1], 0);
+    let mut src = Chunky::new(&file[..a + 1], 0).with_short_budget(2);
     let mut buf = vec![0u8; 40];
     let r1 = kind_of(read_frame_into(&mut src, &mut buf));
     assert!(r1 == Ok(Some(())));
@@ -301,7 +301,7 @@ fn c12_read_frame_into_any_chunking() {
     kani::assume(i < a);
     assert_eq!(buf[i], file[i]);
     assert_eq!(src.pos, a); // nothing beyond the frame was consumed
-    kani::cover!(src.calls >= 4);
+    kani::cover!(src.short_left == 0);
     std::mem::forget(buf);
 }
 
